@@ -6,6 +6,7 @@ import (
 	"sort"
 	"strconv"
 	"sync"
+	"sync/atomic"
 	"testing/synctest"
 	"time"
 )
@@ -23,7 +24,7 @@ type Sched struct {
 	anon   int
 	Steps  int
 	// Off disables parking (Park returns immediately): used by engines during setup/teardown.
-	Off bool
+	Off atomic.Bool
 }
 
 type Task struct {
@@ -102,7 +103,7 @@ func (s *Sched) CurrentName() string {
 
 // Park suspends the calling goroutine until the scheduler grants it.
 func (s *Sched) Park(point string) {
-	if s.Off || s.r.Aborted() {
+	if s.Off.Load() || s.r.Aborted() {
 		return
 	}
 	id := goid()
@@ -127,6 +128,14 @@ func (s *Sched) Park(point string) {
 	s.parked[key] = e
 	s.mu.Unlock()
 	<-e.ch
+}
+
+// Settle waits for quiescence after the event loop itself woke tasks (a cancelled context, a clock jump) and
+// orders what they did before what the event loop does next, for the race detector too.
+func (s *Sched) Settle() {
+	synctest.Wait()
+	s.mu.Lock()
+	s.mu.Unlock() //nolint:staticcheck
 }
 
 // Parked returns the sorted names of parked tasks (after quiescence).
@@ -181,13 +190,17 @@ func (s *Sched) Grant(name string) (string, string) {
 	s.Steps++
 	close(e.ch)
 	synctest.Wait()
+	// quiescence is not a synchronisation the race detector knows about: taking the scheduler's lock, which
+	// every task took when it parked or ended, orders their accesses to harness state before the event loop's
+	s.mu.Lock()
+	s.mu.Unlock() //nolint:staticcheck
 	return e.name, e.point
 }
 
 // ReleaseAll turns parking off and releases everything (teardown / aborted runs).
 func (s *Sched) ReleaseAll() {
 	s.mu.Lock()
-	s.Off = true
+	s.Off.Store(true)
 	es := make([]*parkEntry, 0, len(s.parked))
 	for k, e := range s.parked {
 		es = append(es, e)
